@@ -162,6 +162,7 @@ DEPENDS = {
     'C07': ['C05', 'C04', 'C18'],          # xargs -0 splitting; "delivers every matched path exactly once" presupposes the batching and its cost model
     'C20': ['C05'],
     'C06': ['C04'],
+    'C19': ['C05'],                 # "unterminated quote ... give exit status 1": the reader decides what is unterminated
 }
 for pid, d in DEPENDS.items():
     PROPS[pid]['depends'] = d
